@@ -339,6 +339,14 @@ func (c18) Gen(r *sim.RNG, tier string, idx int) *Scenario {
 	}
 	sc.Cfg = &cfg
 	sc.World = gen.Generate(r, cfg)
+	if r.Bool(0.25) {
+		// absolute file references carrying a query: the query is irrelevant for a local file, the
+		// document is still the same one and must still be fetched once (the model does not follow
+		// such references: these worlds are judged by the cache-state comparison only)
+		if addFileQueries(sc.World, r) {
+			sc.Note = "file references with queries"
+		}
+	}
 	// a sequence of element expansions; Run derives the cache-state variants of each
 	n := 2 + r.Intn(4)
 	ops := elementOps(sc.World, r, 0, false)
@@ -372,6 +380,40 @@ func (c18) Gen(r *sim.RNG, tier string, idx int) *Scenario {
 	return sc
 }
 
+// addFileQueries rewrites some references to other file documents as absolute URLs with a query.
+func addFileQueries(w *model.World, r *sim.RNG) bool {
+	done := false
+	var visit func(u string, v interface{})
+	visit = func(u string, v interface{}) {
+		switch c := v.(type) {
+		case map[string]interface{}:
+			if ref, ok := c["$ref"].(string); ok {
+				d, p, err := model.Locate(u, ref)
+				if err == nil && d != u && strings.HasPrefix(d, "file://") && r.Intn(2) == 0 {
+					frag := ""
+					if p != "" {
+						frag = (&url.URL{Fragment: p}).String()
+					}
+					c["$ref"] = d + "?rev=2" + frag
+					done = true
+				}
+				return
+			}
+			for _, k := range keys(c) {
+				visit(u, c[k])
+			}
+		case []interface{}:
+			for _, x := range c {
+				visit(u, x)
+			}
+		}
+	}
+	for _, u := range keys(w.Docs) {
+		visit(u, w.Docs[u])
+	}
+	return done
+}
+
 func usesCache(entry string) bool {
 	switch entry {
 	case "ExpandSchema", "ExpandSchemaWithBasePath", "ExpandParameterWithRoot", "ExpandResponseWithRoot":
@@ -398,7 +440,7 @@ func (c18) Run(sc *Scenario) *Verdict {
 	v := &Verdict{}
 	w := sc.World
 	full := w.Reachable(w.RootNode(), false)
-	hasIDs := sc.Cfg != nil && (sc.Cfg.IDs > 0 || sc.Cfg.IDScopes)
+	hasIDs := (sc.Cfg != nil && (sc.Cfg.IDs > 0 || sc.Cfg.IDScopes)) || sc.Note == "file references with queries"
 	if (len(full.Bad) > 0 || full.IllFound) && !hasIDs {
 		v.Inconclusive = "world is not well-formed (outside this property's quantifier)"
 		return v
